@@ -64,7 +64,7 @@ type xferSpec struct {
 	// Hook run on main after connect (before writers start).
 	AfterConnect func(m *Sim)
 	// Extra final oracle.
-	Final func(m *Sim, x *Exec, r *xferResult)
+	Final              func(m *Sim, x *Exec, r *xferResult)
 	NoFaultOnHandshake bool
 	// Interleave: one writer thread per endpoint writes message i of every stream in turn.
 	Interleave     bool
@@ -79,9 +79,9 @@ type xferSpec struct {
 	MIDStart uint32
 	// SuspendTimers: after the handshake, every timer expiry may be postponed (one schedule
 	// deviation) until the next packet delivery has been processed.
-	SuspendTimers  bool
-	WriteTimeout   time.Duration // blocking-write mode: SetWriteDeadline before each write
-	ReaderDone     func(m *Sim, sid uint16)
+	SuspendTimers bool
+	WriteTimeout  time.Duration // blocking-write mode: SetWriteDeadline before each write
+	ReaderDone    func(m *Sim, sid uint16)
 }
 
 type wroteMsg struct {
@@ -93,15 +93,15 @@ type wroteMsg struct {
 }
 
 type xferResult struct {
-	Written  map[uint16][]wroteMsg
-	Read     map[uint16][]rmsg
-	ReadErr  map[uint16]error
-	Accepted map[uint16]bool
-	Connected bool
-	Drained  bool
-	DrainAt  time.Duration
-	HealAt   time.Duration
-	DoneAt   time.Duration
+	Written    map[uint16][]wroteMsg
+	Read       map[uint16][]rmsg
+	ReadErr    map[uint16]error
+	Accepted   map[uint16]bool
+	Connected  bool
+	Drained    bool
+	DrainAt    time.Duration
+	HealAt     time.Duration
+	DoneAt     time.Duration
 	BufAtDrain [2]int
 }
 
